@@ -371,7 +371,9 @@ func (p *path) addRule(
 		if y.desc.FullName() != desc.FullName() {
 			return fmt.Errorf("duplicate rule %v", rule)
 		}
-		return nil // Method already registered.
+		// Method already registered here; its additional bindings still
+		// have to be added.
+		return p.addAdditionalBindings(rule, desc, name)
 	}
 
 	m := &method{
@@ -408,6 +410,14 @@ func (p *path) addRule(
 		cursor.methods[verb] = m
 	}
 
+	return p.addAdditionalBindings(rule, desc, name)
+}
+
+func (p *path) addAdditionalBindings(
+	rule *annotations.HttpRule,
+	desc protoreflect.MethodDescriptor,
+	name string,
+) error {
 	for _, addRule := range rule.AdditionalBindings {
 		if len(addRule.AdditionalBindings) != 0 {
 			return fmt.Errorf("nested rules") // TODO: errors...
